@@ -496,7 +496,12 @@ func (obj *Package) Define(creator func(args List) Object, doc *FuncDoc, aux ...
 		// Replace the package's previous definition and fill a gap but leave
 		// the user's own or otherwise inherited function alone.
 		if xf := pkg.funcs[name]; xf == nil || xf.Pkg == obj {
-			pkg.funcs[name] = &fi
+			if fi.Export {
+				pkg.funcs[name] = &fi
+			} else if xf != nil {
+				delete(pkg.funcs, name)
+				pkg.inheritFunc(name)
+			}
 		}
 		pkg.mu.Unlock()
 	}
